@@ -140,6 +140,20 @@ fn exec(
                 diff = Some(format!("forests differ after the call: original {} | clone {}", a.model.canon_forest(), b.model.canon_forest()));
             } else if a.serialise_roots() != b.serialise_roots() {
                 diff = Some("serialisations differ after the call".to_string());
+            } else {
+                // store-wide indexes: every xml:id seen at parse time is looked up in both stores
+                for (doc, value) in &a.xml_ids {
+                    if let (Some(ha), Some(hb)) = (a.handles.get(doc), b.handles.get(doc)) {
+                        if a.model.exists_live(*doc) && !a.xot.is_removed(*ha) && !b.xot.is_removed(*hb) {
+                            let (ra, rb) = (a.xot.xml_id_node(*ha, value), b.xot.xml_id_node(*hb, value));
+                            stats.inc("probe/c12_xml_id_lookups_compared_across_stores");
+                            if ra != rb {
+                                diff = Some(format!("xml_id_node({:?}, {:?}): original {:?}, clone {:?}", doc, value, ra, rb));
+                                break;
+                            }
+                        }
+                    }
+                }
             }
         }
         if let Some(d) = diff {
@@ -211,6 +225,9 @@ fn account(stats: &mut Stats, t: &TraceOp, info: &StepInfo, w: &World) {
             }
             if info.soft_mismatch {
                 stats.inc("soft_adopt_in_dirty_text_state");
+            }
+            if info.dirty_text_state {
+                stats.inc("probe/ok_calls_judged_exactly_with_adjacent_text_while_consolidation_on");
             }
         }
         _ => {}
@@ -339,6 +356,12 @@ pub fn run_one(cfg: &ForestCfg, run_index: u64, run_seed: u64, known: &KnownFile
         } else {
             if prof.motif_pct > 0 && rng.pct(prof.motif_pct) {
                 if let Some(ops) = gen::gen_motif(&w.model, &mut rng, &clients[c].home) {
+                    queued.extend(ops);
+                }
+            }
+            if prof.flip_pm > 0 && rng.pct(3) {
+                if let Some(ops) = gen::gen_split_text_motif(&w.model, &mut rng, &clients[c].home) {
+                    stats.inc("probe/split_text_motif");
                     queued.extend(ops);
                 }
             }
